@@ -95,6 +95,7 @@ def main():
                           "values (incl. unhashable lists) x 9x4 queries x formulas flag; "
                           "non-trivial = distinct (cells, query) with a non-empty query")
   runner.run_property(rep, "contracts.C41_fetch_table", bounded=False)
+  runner.run_property(rep, "contracts.L_store", bounded=False, only=["L.rowids.iter", "L.rowids.contains"])
   from vlib.rtc import fn
   c = fn.FnContract("engine.Engine.fetch_table", _call,
                     ensures={"C41.rows_exact_in_order-bounded": _ens_rows,
